@@ -3,6 +3,7 @@ import EpgVerif.Model.Bloch
 import EpgVerif.Model.DiffSM
 import EpgVerif.Model.Jet
 import EpgVerif.Gen.MathTable
+import EpgVerif.Model.Coll
 /-
   Line-protocol driver over the executable model at `K := CF` (DESIGN Appendix A).
   One request per line; floats travel as the decimal of their IEEE-754 bits.
@@ -67,6 +68,39 @@ def sexprCmd (toks : List String) : String :=
     | none => "bad-expr"
   | _ => "bad-expr"
 
+def shapeOfTok (t : String) : List Nat := if t == "-" then [] else (t.splitOn "x").map String.toNat!
+def showShape (s : List Nat) : String := if s.isEmpty then "-" else "x".intercalate (s.map toString)
+def layoutOfTok (t : String) : List Coll.LItem :=
+  (t.splitOn ",").map (fun x =>
+    if x == "..." then Coll.LItem.ell
+    else if x == "_" then Coll.LItem.free
+    else if x.startsWith "#" then Coll.LItem.fixed (x.drop 1).toNat!
+    else Coll.LItem.named ((x.drop 1).toString))
+
+def dumpColl (c : Coll.C) : String :=
+  let axes := (c.axes.toArray.qsort (fun a b => a.1 < b.1)).toList.map (fun (k, v) => s!"{k}={v}")
+  let gets := c.arrays.map (fun (n, _) => s!"{n}:{showShape ((Coll.get c n).getD [])}")
+  s!"coll shape={showShape c.shape} axes=[{",".intercalate axes}] gets=[{",".intercalate gets}]"
+
+/-- collection sub-protocol; `none` collection state means an error was reported for that step -/
+def collCmd (c : Coll.C) (toks : List String) : Coll.C × String :=
+  let fin (r : Except Coll.Err Coll.C) : Coll.C × String :=
+    match r with
+    | .ok c' => (c', dumpColl c')
+    | .error .value => (c, "err ValueError")
+    | .error .index => (c, "err IndexError")
+    | .error .key => (c, "err KeyError")
+  match toks with
+  | ["cnew", ax, d] => let c' := Coll.init (if d == "none" then none else some (shapeOfTok d)) ax.toInt!; (c', dumpColl c')
+  | ["cset", name, sh, lay, rs, ck] =>
+      fin (Coll.set c name (shapeOfTok sh) (if lay == "none" then none else some (layoutOfTok lay)) (rs == "1") (ck == "1"))
+  | ["cpop", name] => let c' := Coll.pop c name; (c', dumpColl c')
+  | ["cresize", ax, n] => fin (Coll.resize c ax n.toNat!)
+  | ["cexpand", n] => let c' := Coll.expand c n.toNat!; (c', dumpColl c')
+  | ["creduce", n] => let c' := Coll.reduce c n.toNat!; (c', dumpColl c')
+  | ["cbroadcast", sh] => fin (Coll.broadcast c (shapeOfTok sh))
+  | _ => (c, "bad-coll")
+
 structure DState where
   opts : Opts := {}
   sm : SM CF := SM.init (1 : CF)
@@ -77,6 +111,7 @@ structure DState where
   dsm : DS CF := ⟨SM.init (1 : CF), [], []⟩   -- statement-by-statement mirror of the Python code
   js : SM JC := SM.init (1 : JC)
   vars : Array String := #[]
+  coll : Coll.C := Coll.init none 0
 
 def intOfTok (t : String) : Int := t.toInt!
 
@@ -223,6 +258,9 @@ def step (d : DState) (line : String) : DState × List String :=
   | ["dump"] => (d, [dumpSM d.sm])
   | ["dumpeq"] => (d, [dumpEq d.sm])
   | "sexpr" :: rest => (d, [sexprCmd rest])
+  | "cnew" :: _ | "cset" :: _ | "cpop" :: _ | "cresize" :: _ | "cexpand" :: _ | "creduce" :: _ | "cbroadcast" :: _ =>
+      let (c', out) := collCmd d.coll toks
+      ({ d with coll := c' }, [out])
   | ["dumpd"] => (d, dumpDiff d)
   | ["dumpj"] => (d, dumpJets d)
   | ["bloch", N, kmax] => (d, [blochDump d N.toNat! kmax.toNat!])
